@@ -416,7 +416,16 @@ func (s *Service) Stop(ctx context.Context, pipelineID string, force bool) error
 	case false:
 		return s.stopGraceful(ctx, rp, nil)
 	case true:
-		return s.stopForceful(ctx, rp)
+		err := s.stopForceful(ctx, rp)
+		// Stop does not wait for a Start in progress. If rp was the dead run a
+		// restart is replacing, that restart may have published its run after
+		// we resolved rp and before we marked it: Start looks at the mark of the
+		// run it supersedes right after publishing, we look at the registry
+		// right after marking - one of the two sees the other.
+		if cur, ok := s.runningPipelines.Get(pipelineID); ok && cur != rp {
+			return cerrors.Join(err, s.stopForceful(ctx, cur))
+		}
+		return err
 	}
 	panic("unreachable code")
 }
